@@ -12,6 +12,7 @@ from ..workloads import specs as W
 from ._spec_common import eval_tree, run_trees
 
 PROP = "C01"
+ANCHORS = ['dep_logic.specifiers.range:RangeSpecifier.__and__', 'dep_logic.specifiers.range:RangeSpecifier.__or__', 'dep_logic.specifiers.range:RangeSpecifier.__invert__', 'dep_logic.specifiers.range:RangeSpecifier.is_superset', 'dep_logic.specifiers.range:RangeSpecifier.allows_lower', 'dep_logic.specifiers.range:RangeSpecifier.allows_higher', 'dep_logic.specifiers.range:RangeSpecifier.is_strictly_lower', 'dep_logic.specifiers.range:RangeSpecifier.is_adjacent_to', 'dep_logic.specifiers.range:RangeSpecifier.can_combine', 'dep_logic.specifiers.union:UnionSpecifier.__and__', 'dep_logic.specifiers.union:UnionSpecifier.__or__', 'dep_logic.specifiers.union:UnionSpecifier.__invert__', 'dep_logic.specifiers.union:UnionSpecifier._from_ranges', 'dep_logic.specifiers.special:EmptySpecifier.__and__', 'dep_logic.specifiers.special:EmptySpecifier.__or__', 'dep_logic.specifiers.special:AnySpecifier.__and__', 'dep_logic.specifiers.special:AnySpecifier.__or__']
 RULE = ("Seeded expression trees (depth<=4, leaves = specifier texts through parse_version_specifier / "
         "from_specifierset, hostile shapes: equal bounds with different inclusivity, touching ranges, unions of up "
         "to 8 ranges, both spellings of the universal set; earlier trees reused as operands). Every call of an "
